@@ -30,5 +30,8 @@ C13_ReturnConverged == Returned => \A c \in Ids(C.cfg) : LastLevel(c) => FinConv
 \* ... and controllers of earlier levels, which the loop does not revisit after later levels have acted
 C13_ReturnConvergedEarlierLevels == Returned => \A c \in Ids(C.cfg) : ~LastLevel(c) => FinConv(c)
 C13_ReturnFresh == Returned => (~f.dirty /\ C.fresh <= FreshTol)
-DIV_Conformance == f.div = ""
+DIV_TapTracking == f.div # "DIV_TapTracking"
+DIV_ConvDecision == f.div # "DIV_ConvDecision"
+DIV_StepDecision == f.div # "DIV_StepDecision"
+DIV_UnexpectedRaise == f.div # "DIV_UnexpectedRaise"
 =============================================================================
